@@ -53,6 +53,14 @@ class SeqDiff(odl.Operator):
         n = self.domain.size
         for i in range(n):
             out.data[i] = x.data[(i + 1) % n] - x.data[i]
+
+class SharedView(odl.Operator):
+    """x -> x, returned out-of-place as a NEW element wrapping the memory of ``x`` (a view of
+    the input, like ``RealPart`` on a complex space); not flagged linear."""
+    def __init__(self, space):
+        super(SharedView, self).__init__(space, space, linear=False)
+    def _call(self, x):
+        return self.range.element(x.data)
 '''
 PREAMBLE = ('import numpy as np, odl\n'
             'R3, R2, C2, R = odl.rn(3), odl.rn(2), odl.cn(2), odl.RealNumbers()\n'
@@ -61,10 +69,38 @@ PREAMBLE = ('import numpy as np, odl\n'
 # scalars: dyadic, |a|^2 a power of two; python types as a user would write them
 SCALARS = {'2': 2, '-1': -1, '0.5': 0.5, '0': 0, '1j': 1j}
 SCALAR_SRC = {'2': '2', '-1': '(-1)', '0.5': '0.5', '0': '0', '1j': '1j'}
+# Extended scalars (classes of operands, not single inputs):
+#  * magnitude regimes - nonzero scalars far below / above the unit scale (2**-30 ~ 9.3e-10 is
+#    below every customary absolute tolerance, 1e-8 of np.isclose / allclose included) and a
+#    scalar close to, but different from, the neutral element 1 (1 + 2**-20: inside the default
+#    rtol = 1e-5 of np.isclose).  "(a*A)(x) = a*A(x)" holds for EVERY scalar of the field; the
+#    zero arms of the overloads are documented for a == 0 only.  All are powers of two (or 1 +
+#    one), so that products among them and with the dyadic pool values are exact.
+#  * scalar TYPES - NumPy scalars (members of the field: ``np.float64(2.0) in RealNumbers()``)
+#    next to the Python int / float / complex of the base pool.  np.float32 is left out: NumPy
+#    computes float32 * float in single precision, which the documentation does not address.
+SCALARS.update({'tiny': 2.0 ** -30, 'huge': 2.0 ** 30, 'near1': 1 + 2.0 ** -20,
+                'tinyj': 2.0 ** -30 * 1j,
+                'f64:2': np.float64(2.0), 'i64:-1': np.int64(-1), 'f64:0': np.float64(0.0),
+                'c128:1j': np.complex128(1j)})
+SCALAR_SRC.update({'tiny': '(2.0 ** -30)', 'huge': '(2.0 ** 30)', 'near1': '(1 + 2.0 ** -20)',
+                   'tinyj': '(2.0 ** -30 * 1j)',
+                   'f64:2': 'np.float64(2.0)', 'i64:-1': 'np.int64(-1)',
+                   'f64:0': 'np.float64(0.0)', 'c128:1j': 'np.complex128(1j)'})
+COMPLEX_TOKENS = frozenset(['1j', 'tinyj', 'c128:1j'])
+ZERO_TOKENS = frozenset(['0', 'f64:0'])
+# regime of an extended scalar (part of the site name)
+SCALAR_REGIME = {'tiny': 'tiny', 'tinyj': 'tiny', 'huge': 'huge', 'near1': 'near1',
+                 'f64:2': 'npscalar', 'i64:-1': 'npscalar', 'f64:0': 'npscalar',
+                 'c128:1j': 'npscalar'}
+# mathematical value of a token as a Python float / complex (the reference computes in double
+# precision whatever type the user handed to the overload)
+SCALAR_VALUE = dict((k, complex(v) if k in COMPLEX_TOKENS else float(v))
+                    for k, v in SCALARS.items())
 
 
 def in_field(tok, field):
-    return field == 'C' or tok != '1j'
+    return field == 'C' or tok not in COMPLEX_TOKENS
 
 
 VECS = {
@@ -147,6 +183,12 @@ LEAVES = {
                   'odl.MultiplyOperator(R3.element(%r))' % MUL3.tolist(), lambda x: MUL3 * x),
     'SeqDiff3': _leaf('R3', 'R3', True, 'LinOp', 'SeqDiff(R3)',
                       lambda x: np.array([x[1] - x[0], x[2] - x[1], x[0] - x[2]]), alias=False),
+    # operators whose out-of-place call hands back its argument: RealPart on a real space
+    # returns ``x`` itself, SharedView (harness-defined) a new element on the memory of ``x``.
+    # "Not in-place since the result can be a view into `x`" (OperatorVectorSum._call): a
+    # combinator must neither modify nor keep relying on an operand's out-of-place result
+    'Re3': _leaf('R3', 'R3', True, 'LinOp', 'odl.RealPart(R3)', lambda x: 1.0 * x),
+    'View3': _leaf('R3', 'R3', False, 'NonOp', 'SharedView(R3)', lambda x: 1.0 * x),
     'Pow3': _leaf('R3', 'R3', False, 'NonOp', 'odl.PowerOperator(R3, 2)', lambda x: x * x),
     'Abs3': _leaf('R3', 'R3', False, 'NonOp', 'odl.ufunc_ops.absolute(R3)',
                   lambda x: np.abs(x)),
@@ -273,7 +315,7 @@ def typeof(e):
         if op == 'rsmul':
             return (dom, ran, lin, ex) if in_field(a, Fd) else None
         if op == 'div':
-            ok = a != '0' and in_field(a, Fd) and in_field(a, Fr)
+            ok = a not in ZERO_TOKENS and in_field(a, Fd) and in_field(a, Fr)
             return (dom, ran, lin, ex) if ok else None
         # sums with a scalar: affine, not linear
         return (dom, ran, False, ex) if in_field(a, Fr) else None
@@ -340,19 +382,19 @@ def ref_eval(e, x, tr=None):
     if op == 'L':
         y = LEAVES[e[1]]['ref'](x)
     elif op == 'lsmul':
-        y = SCALARS[e[1]] * ref_eval(e[2], x, tr)
+        y = SCALAR_VALUE[e[1]] * ref_eval(e[2], x, tr)
     elif op == 'rsmul':
-        y = ref_eval(e[1], SCALARS[e[2]] * x, tr)
+        y = ref_eval(e[1], SCALAR_VALUE[e[2]] * x, tr)
     elif op == 'div':
-        y = ref_eval(e[1], x / SCALARS[e[2]], tr)
+        y = ref_eval(e[1], x / SCALAR_VALUE[e[2]], tr)
     elif op == 'adds':
-        y = ref_eval(e[1], x, tr) + SCALARS[e[2]]
+        y = ref_eval(e[1], x, tr) + SCALAR_VALUE[e[2]]
     elif op == 'sadd':
-        y = SCALARS[e[1]] + ref_eval(e[2], x, tr)
+        y = SCALAR_VALUE[e[1]] + ref_eval(e[2], x, tr)
     elif op == 'subs':
-        y = ref_eval(e[1], x, tr) - SCALARS[e[2]]
+        y = ref_eval(e[1], x, tr) - SCALAR_VALUE[e[2]]
     elif op == 'ssub':
-        y = SCALARS[e[1]] - ref_eval(e[2], x, tr)
+        y = SCALAR_VALUE[e[1]] - ref_eval(e[2], x, tr)
     elif op == 'lvmul':
         y = vec_array(e[1]) * ref_eval(e[2], x, tr)
     elif op == 'rvmul':
@@ -398,10 +440,16 @@ def ref_is_linear(e, t):
     tr = new_track()
 
     def close(a, b):
+        # "not linear" is a claim about the documented function, so the test is relative to
+        # the size of the VALUES compared (a function scaled by a tiny scalar is as nonlinear as
+        # the unscaled one); rounding in the reference itself is bounded by a few ulp of the
+        # largest intermediate magnitude and never counts as a deviation
         a, b = np.asarray(a), np.asarray(b)
         if tr[1]:
             return bool(np.array_equal(a, b))
-        return bool(np.all(np.abs(a - b) <= 1e-9 * max(1.0, tr[0])))
+        size = max(float(np.max(np.abs(a))) if a.size else 0.0,
+                   float(np.max(np.abs(b))) if b.size else 0.0)
+        return bool(np.all(np.abs(a - b) <= 1e-9 * size + 1e-13 * tr[0]))
 
     f1, f2, f12, f0 = (ref_eval(e, p, tr) for p in (x1, x2, x12, x0))
     if not close(f0, 0 * f0):
@@ -429,6 +477,11 @@ FULL = {
     'binary': ['add', 'sub', 'comp', 'matmul', 'pwprod'],
     'at': True,
     'tmpforms': True,
+    # extended scalars: roots over every child (all scalar forms except the `@` synonyms)
+    'xscalars': ['tiny', 'huge', 'near1', 'tinyj', 'f64:2', 'i64:-1', 'f64:0', 'c128:1j'],
+    # ... of which these also form children  a*E, E*a, E/a  (so that a factor can be undone /
+    # merged by the enclosing application: huge * (tiny * f), (f * tiny) / tiny, ...)
+    'xchild': ['tiny', 'huge'],
 }
 # reduced pool for the deepest level: one representative per (type, linear?, class family)
 REDUCED = {
@@ -476,16 +529,18 @@ def roots_over(c, pool):
     for n in pool['pows']:
         if n == 1 or dom == ran:
             out.append(['pow', c, n])
-    for a in pool['scalars']:
+    xs = pool.get('xscalars', [])
+    for a in pool['scalars'] + xs:
+        at = pool['at'] and a not in xs      # `@` delegates to `*` before looking at the operand
         if in_field(a, Fr):
             out.append(['lsmul', a, c])
-            if pool['at']:
+            if at:
                 out.append(['lsmatmul', a, c])
         if in_field(a, Fd):
             out.append(['rsmul', c, a])
-            if pool['at']:
+            if at:
                 out.append(['rsmatmul', c, a])
-        if a != '0' and in_field(a, Fd) and in_field(a, Fr):
+        if a not in ZERO_TOKENS and in_field(a, Fd) and in_field(a, Fr):
             out.append(['div', c, a])
         if in_field(a, Fr):
             for op in pool.get('ssums', ('adds', 'sadd', 'subs', 'ssub')):
@@ -583,6 +638,25 @@ def products_with(b, partners):
     return out
 
 
+def scalar_token(e):
+    """The scalar token at the root of ``e`` (None when the root has no scalar operand)."""
+    for a, r in zip(e[1:], OPS[e[0]]):
+        if r == 'S':
+            return a
+    return None
+
+
+def reused(e, pool):
+    """Is the root application ``e`` used as a child of larger expressions?  Applications of an
+    extended scalar are judged as roots over every child; as children only the multiplicative
+    forms (whose factors are merged / undone by an enclosing multiplication) with the magnitude
+    scalars of ``pool['xchild']`` are kept."""
+    a = scalar_token(e)
+    if a is None or a not in pool.get('xscalars', []):
+        return True
+    return e[0] in ('lsmul', 'rsmul', 'div') and a in pool.get('xchild', [])
+
+
 def level(pool, n):
     """All expressions of size exactly n built by chains of `roots_over` (n = 0: leaves)."""
     cur = [['L', name] for name in pool['leaves']]
@@ -591,7 +665,7 @@ def level(pool, n):
         for c in cur:
             # `@` forms build the same objects as their `*` twins: judged as roots, not reused
             nxt.extend(r for r in roots_over(c, pool)
-                       if not unspecified(r) and r[0] not in ALIAS)
+                       if not unspecified(r) and r[0] not in ALIAS and reused(r, pool))
         cur = nxt
     return cur
 
@@ -613,13 +687,19 @@ OVERLOAD = {
 def overload(e):
     """Name of the overload at the root; a zero scalar factor is a separate arm."""
     s = OVERLOAD[e[0]]
-    if e[0] in ('lsmul', 'lsmatmul') and e[1] == '0':
+    if e[0] in ('lsmul', 'lsmatmul') and e[1] in ZERO_TOKENS:
         s = s.replace('a', '0')
-    if e[0] in ('rsmul', 'rsmatmul') and e[2] == '0':
+    if e[0] in ('rsmul', 'rsmatmul') and e[2] in ZERO_TOKENS:
         s = s.replace('a', '0')
-    if e[0] == 'rsmultmp' and e[2] == '0':
+    if e[0] == 'rsmultmp' and e[2] in ZERO_TOKENS:
         s = 'OperatorRightScalarMult(A,0,tmp)'
     return s
+
+
+def scalar_regime(e):
+    """';a=<regime>' when the scalar operand at the root is an extended one, else ''."""
+    a = scalar_token(e)
+    return ';a=' + SCALAR_REGIME[a] if a in SCALAR_REGIME else ''
 
 
 def leaf_names(e):
